@@ -189,7 +189,9 @@ Seqs == FSeqs \cup TSeqs
    buffer with unread data, reassembly memory, neighbour cache), after which
    the application uses the queue and the probes run. *)
 PressUdp == {"udp-unread", "udp-late", "udp-small", "udp-frag"}
-Pressure == [k : {"press"}, q : PressUdp \cup {"syn-backlog", "tcp-rcvbuf", "frag-mem", "neigh"}]
+\* ("neigh-failed": not a queue but state left by the stack's OWN earlier activity - a neighbour that did not answer three
+\*  requests (entry failed) and then speaks after all: late ARP reply / request, late neighbour advertisement)
+Pressure == [k : {"press"}, q : PressUdp \cup {"syn-backlog", "tcp-rcvbuf", "frag-mem", "neigh", "neigh-failed"}]
 (* Segment sequences on an ESTABLISHED connection (opened passively through
    the listener, or actively by the stack), played by a peer that knows the
    real sequence numbers.  A letter is a segment at a fixed place of the peer's
